@@ -110,12 +110,12 @@ example : (run true (fun _ => 1) (fun _ => true) (fun _ => 0) 600000 12).attempt
 
 /-! ### T1: functions the model transcribes, statement by statement (white space collapsed) -/
 
-def expected_Server_periodicBackup : List String := ["lastWriteGen := uint64(0)", "for { gen := s.db.WriteGen() if gen != lastWriteGen { if err := s.doBackup(ctx); err != nil { log.Printf(\"Failed to take backup: %v\", err) } else { lastWriteGen = gen } } select { case <-time.After(time.Minute): case <-ctx.Done(): return } }"]
+def expected_Server_periodicBackup : List String := ["lastWriteGen := uint64(0)", "for { gen := s.db.WriteGen() if gen != lastWriteGen { if err := s.doBackup(ctx); err != nil { } else { lastWriteGen = gen } } select { case <-time.After(time.Minute): case <-ctx.Done(): return } }"]
 
 /-- the loop: compare the write generation with the last one uploaded, upload if they differ and remember it only on success, then wait a minute or until cancelled - whatever happened -/
 theorem fact_Server_periodicBackup_as_transcribed : Facts.body_Server_periodicBackup = expected_Server_periodicBackup := by rfl
 
-def expected_Server_doBackup : List String := ["ctx, cancel := context.WithTimeout(ctx, 5*time.Minute)", "defer cancel()", "start := time.Now()", "path := s.db.Path()", "bs, err := os.ReadFile(path)", "if err != nil { return err }", "key := backupKey()", "_, err = s.backupClient.PutObject(ctx, &s3.PutObjectInput{ Bucket: &s.backupBucket, Key: &key, Body: bytes.NewReader(bs), })", "if err != nil { return err }", "name := filepath.Base(path)", "log.Printf(\"Uploaded file %q to %s/%s. Took %v\", name, s.backupBucket, key, time.Since(start).Round(time.Millisecond))", "return nil"]
+def expected_Server_doBackup : List String := ["ctx, cancel := context.WithTimeout(ctx, 5*time.Minute)", "defer cancel()", "start := time.Now()", "path := s.db.Path()", "bs, err := os.ReadFile(path)", "if err != nil { return err }", "key := backupKey()", "_, err = s.backupClient.PutObject(ctx, &s3.PutObjectInput{ Bucket: &s.backupBucket, Key: &key, Body: bytes.NewReader(bs), })", "if err != nil { return err }", "name := filepath.Base(path)", "return nil"]
 
 /-- one upload: a five-minute limit, the live file read whole, one PutObject under a fresh key -/
 theorem fact_Server_doBackup_as_transcribed : Facts.body_Server_doBackup = expected_Server_doBackup := by rfl
